@@ -622,6 +622,14 @@ func runC12(p *an.Prog, r *an.Run, tier string) {
 	checkNonceStores(p, r)
 	checkBigIntOwnership(p, r)
 	checkKeyOperandTypes(p, r)
+	// the per-driver contract rules of the ledger (C01: one balance write per credit, link + migrate + delete on exactly
+	// the success paths of AddAccountNode, Stats covers both balance spaces) and of the tracked-peer set (C11: ids
+	// looked up as reported, canonical eviction, persistence): the summaries above compare what each driver MAY touch;
+	// these decide what each MUST do on every path, which is where two drivers with equal summaries still differ
+	for _, d := range []*types.Named{mem, bad} {
+		checkDriverLedger(p, r, d)
+	}
+	runC11(p, r, tier)
 
 	// ---- SetNode keeps peers
 	checkSetNodeKeepsPeers(p, r)
